@@ -8,11 +8,13 @@ const stance = "Static analysis of /repo's current source (go/packages + go/type
 func init() {
 	defProp(&Prop{ID: "C01", Title: "Keyspace is a sequential typed map",
 		Explanation: stance + "Decided clause: a generic/string command applied to a value of the wrong type fails with an error instead of panicking or silently succeeding (type assertions on store values are comma-ok with an error exit), and constant indices into the command are inside every possible length.",
-		Decides:     []string{"WT wrong-type discipline of the generic and string handlers", "AR constant index safety of the generic and string handlers and key functions"},
+		Decides:     []string{"WT wrong-type discipline of the generic and string handlers", "AR constant index safety of the generic and string handlers and key functions", "NUM every numeric conversion of the family parses/prints base 10, 64 bits", "X4 a multi-key write gives each key its own deadline"},
 		NotCovered:  []string{"last-write-wins, counter arithmetic, byte-for-byte preservation, option combinations of SET, deadlines carried across SET/RENAME (value-level; no sound static argument in reach)"},
 		Rules: []RuleRef{
 			{ID: "WT", Scope: []string{"internal/modules/generic.", "internal/modules/string."}, Floor: 15},
 			{ID: "AR", Scope: []string{"internal/modules/generic.", "internal/modules/string."}, Floor: 55},
+			{ID: "NUM", Scope: []string{"internal/modules/generic.", "internal/modules/string."}, Floor: 10},
+			{ID: "X4"},
 		},
 	})
 	defProp(&Prop{ID: "C02", Title: "Append-only log",
@@ -20,7 +22,7 @@ func init() {
 		Decides:     []string{"D2 log-after-success in the dispatcher", "D3 sync-before-ack and SELECT marker in log.Store.Write", "D7 restore order and replay database", "T2 mutating handlers are write-classified", "R2 the log's own SELECT marker is well-formed RESP for every database index", "L1 the log handle is used only under the store mutex"},
 		NotCovered:  []string{"that replaying the logged commands reproduces the dataset (value semantics of each handler)", "torn final record tolerance (behaviour of tidwall/resp on given bytes)", "everysec/no timing"},
 		Assumptions: []string{"os.File.Sync is durable; os.O_APPEND appends atomically"},
-		Rules:       []RuleRef{{ID: "D2"}, {ID: "D3"}, {ID: "D7"}, {ID: "T2"}, {ID: "R2", Scope: []string{"internal/aof"}, Floor: 2}, {ID: "L1", Scope: []string{"log.Store"}, Floor: 2}},
+		Rules:       []RuleRef{{ID: "D2"}, {ID: "D3"}, {ID: "D7"}, {ID: "T2"}, {ID: "R2", Scope: []string{"internal/aof"}, Floor: 2}, {ID: "L1", Scope: []string{"log.Store"}, Floor: 2}, {ID: "D5"}},
 	})
 	defProp(&Prop{ID: "C03", Title: "Snapshot round trip",
 		Explanation: stance + "Decided clauses: (1) every concrete type handlers store as a value is reproduced with the same dynamic type by the snapshot codec (E8); (2) the restore callbacks store data.Value and data.ExpireAt for the same key and database, the state callbacks copy every database and key (RC); (3) the expired-key filter removes exactly entries whose non-zero deadline is before now (X3 on FilterExpiredKeys); (4) the automatic trigger fires when the change count is at or above the threshold and not below (TR); (5) LASTSAVE is published only after the snapshot is durable and named in the manifest (D6 d); (6) the state copy runs under the store lock (L1 on getState).",
@@ -53,9 +55,9 @@ func init() {
 	})
 	defProp(&Prop{ID: "C07", Title: "Replication",
 		Explanation: stance + "Decided clauses: only the dispatcher and the raft FSM invoke command handlers; in a cluster a synced command is never applied locally, raft apply happens only on the leader, forwarding only when enabled, otherwise the client gets an error (D4); every handler that can mutate the keyspace is Sync, i.e. replicated (T2).",
-		Decides:     []string{"D4 cluster guard and routing", "T2 mutators are Sync", "DT synced handlers reach no random source / clock", "N1+N3 the request's database and protocol reach the replicated request and the FSM's handler context", "E8 raft snapshot codec", "NM+RC raft state callback"},
+		Decides:     []string{"D4 cluster guard and routing", "T2 mutators are Sync", "DT synced handlers reach no random source / clock", "N1+N3 the request's database and protocol reach the replicated request and the FSM's handler context", "E8 raft snapshot codec", "NM+RC raft state callback", "RS the raft snapshot captures the state at Snapshot(), not at Persist()"},
 		NotCovered:  []string{"convergence after quiescence, ordering inside hashicorp/raft, leadership changes (library behaviour over histories)"},
-		Rules:       []RuleRef{{ID: "D4"}, {ID: "T2"}, {ID: "DT"}, {ID: "N1"}, {ID: "N3"}, {ID: "E8"}, {ID: "NM"}, {ID: "RC", Scope: []string{"|get-state"}, Floor: 3}},
+		Rules:       []RuleRef{{ID: "D4"}, {ID: "T2"}, {ID: "DT"}, {ID: "N1"}, {ID: "N3"}, {ID: "E8"}, {ID: "NM"}, {ID: "RC", Scope: []string{"|get-state"}, Floor: 3}, {ID: "RS"}},
 	})
 	defProp(&Prop{ID: "C08", Title: "Max-memory policy",
 		Explanation: stance + "Decided clauses: under noeviction every store write is preceded by the admission test, which refuses exactly when a limit is configured and usage >= limit (A1); evictions happen only at/above the limit and every eviction loop re-tests the limit before the next eviction (A2); volatile policies draw candidates only from keys with a deadline (A3); the heap comparators put the least recently / least frequently used entry first (A4); the LRU and LFU caches maintain the same bookkeeping (SB); random indices are applied to the collection that bounded them (IA); createDatabase / deleteKey / Flush cover every per-database structure and a flushed cache heap is empty (PD).",
@@ -105,6 +107,7 @@ func init() {
 		Rules: []RuleRef{
 			{ID: "WT", Scope: []string{"internal/modules/hash."}, Not: []string{"handleHSET|"}, Floor: 10},
 			{ID: "AR", Scope: []string{"internal/modules/hash."}, Floor: 25},
+			{ID: "NUM", Scope: []string{"internal/modules/hash."}, Floor: 2},
 		},
 	})
 	defProp(&Prop{ID: "C15", Title: "List commands",
@@ -133,6 +136,7 @@ func init() {
 		Rules: []RuleRef{
 			{ID: "WT", Scope: []string{"internal/modules/sorted_set."}, Floor: 20},
 			{ID: "AR", Scope: []string{"internal/modules/sorted_set."}, Floor: 80},
+			{ID: "NUM", Scope: []string{"internal/modules/sorted_set."}, Floor: 2},
 		},
 	})
 	defProp(&Prop{ID: "C18", Title: "Pub/Sub",
